@@ -254,7 +254,10 @@ impl<'a> Ctx<'a> {
                     }
                     self.depth += 1;
                     let p = p.clone();
-                    let r = self.eval(&p, &mut Vec::new());
+                    // the bindings in effect at the point of reference include the loop variables
+                    // of enclosing macros
+                    let mut inner = scope.clone();
+                    let r = self.eval(&p, &mut inner);
                     self.depth -= 1;
                     return r;
                 }
@@ -515,6 +518,17 @@ impl<'a> Ctx<'a> {
                         o => o,
                     },
                     "dyn" if args.len() == 1 => self.eval(&args[0], scope),
+                    // a name that is bound to nothing callable: the call fails, and that failure is
+                    // not an absent variable / field (C08, C12)
+                    n if n.starts_with("nosuchfn") => {
+                        for a in args {
+                            let _ = self.eval(a, scope);
+                        }
+                        if args.iter().any(|a| !matches!(a, E::Var(_) | E::Lit(_))) {
+                            self.log_unspecified = true;
+                        }
+                        Out::Fail(FailClass::Other)
+                    }
                     _ => {
                         for a in args {
                             let _ = self.eval(a, scope);
